@@ -1041,8 +1041,13 @@ def run(ctx):
                                     "log_impl", "log_cases")}
     for h in HISTORY_CORPUS:
         run_history(ctx, dict(h, steps=[tuple(st) for st in h["steps"]]), acc)
+    import time
     for _ in range(0 if corpus_only else ctx.budget(80, 900)):
-        run_history(ctx, gen_history(ctx.rng), acc)
+        h = gen_history(ctx.rng)
+        t0 = time.time()
+        run_history(ctx, h, acc)
+        if time.time() - t0 > 20:
+            ctx.note("slow history (%.0f s): %r" % (time.time() - t0, h))
     finish_grid(ctx, acc)
 
 
